@@ -14,7 +14,7 @@ from hypothesis import strategies as st
 import param
 from param.parameterized import batch_call_watchers, discard_events, edit_constant
 from vlib.core import Result
-from vlib.dispatch import NAMES, Fault, World, pool_value, val_strategy, watcher_spec
+from vlib.dispatch import FAULTS, NAMES, Fault, World, pool_value, val_strategy, watcher_spec
 
 ID = "C05"
 LEVEL = "fault_enumeration"
@@ -54,7 +54,7 @@ def _leaf(fam):
     n = st.integers(0, 2)
     key = st.one_of(st.tuples(st.just("v"), n, _val), st.tuples(st.just("v"), n, _val),
                     st.tuples(st.just("bad")), st.tuples(st.just("ev")), st.tuples(st.just("numok"), st.integers(0, 9)),
-                    st.tuples(st.just("unknown")))
+                    st.tuples(st.just("unknown")), st.tuples(st.just("badev")))
     return st.one_of(
         st.tuples(st.just("set"), t, n, _val),
         st.tuples(st.just("set"), t, n, _val),
@@ -100,7 +100,7 @@ def _case(draw):
         elif draw(st.integers(0, 3)) == 0:
             w["names"] = sorted(set(w["names"]) | {3})
         # the class of the exception a failing callback raises: param itself raises ValueError / TypeError for rejected values
-        w["fault_exc"] = draw(st.sampled_from(["Fault", "Fault", "ValueError", "TypeError", "KeyError"]))
+        w["fault_exc"] = draw(st.sampled_from(["Fault", "Fault", "ValueError", "TypeError", "KeyError", "BaseException"]))
     wfaults = draw(st.lists(st.tuples(st.integers(0, len(ws) - 1), st.integers(1, 3)), max_size=3))
     for wid, _k in wfaults:
         w = ws[wid]
@@ -109,8 +109,23 @@ def _case(draw):
             # a faulting callback may do its work (assign another parameter) before it fails
             w["script"] = [[draw(st.integers(lo, 2)), draw(val_strategy(fam))]]
             w["fault_after_script"] = True
+    for w in ws:
+        if w["queued"] and w["what"] == "value" and not w["script"] and any(i <= 1 for i in w["names"]) and draw(st.booleans()):
+            # a queued watcher that does not fail itself assigns another parameter: its events sit in the queue while the
+            # watchers after it run (one of which may fail)
+            lo = max(i for i in w["names"] if i <= 2) + 1
+            if lo <= 2:
+                w["script"] = [[draw(st.integers(lo, 2)), draw(val_strategy(fam))]]
     prog = draw(st.lists(_tree(fam), min_size=1, max_size=5))
-    return {"fam": fam, "watchers": ws, "wfaults": [list(f) for f in wfaults], "prog": prog}
+    case = {"fam": fam, "watchers": ws, "wfaults": [list(f) for f in wfaults], "prog": prog}
+    if draw(st.integers(0, 3)) == 0:
+        # a small scenario of its own: leaving `with obj.param.update(...)` fails while a link is being put back
+        case["restore_fault"] = {
+            "two_links": draw(st.booleans()), "also_plain": draw(st.booleans()), "outer_batch": draw(st.booleans()),
+            "onlychanged": draw(st.booleans()), "queued": draw(st.booleans()),
+            "bad_source_value": draw(st.sampled_from([50, "not a number"])),
+        }
+    return case
 
 
 def strategy(tier):
@@ -168,7 +183,21 @@ def enumerate_cases(tier):
          "script": [[1, 2]], "fault_after_script": False},
         {"target": 0, "names": [4], "what": "bounds", "onlychanged": False, "queued": False, "precedence": 0, "mode": "args", "script": []},
     ]
-    for exc in ("Fault", "ValueError", "TypeError", "KeyError"):
+    # a queued watcher of a assigns b; a later watcher of a raises
+    ws_q = [
+        {"target": 0, "names": [0], "what": "value", "onlychanged": False, "queued": True, "precedence": 0, "mode": "args", "script": [[1, 2]]},
+        {"target": 0, "names": [0], "what": "value", "onlychanged": False, "queued": False, "precedence": 1, "mode": "args", "script": []},
+        {"target": 0, "names": [1, 2], "what": "value", "onlychanged": False, "queued": False, "precedence": 0, "mode": "args", "script": []},
+    ]
+    for exc in ("Fault", "ValueError", "TypeError", "KeyError", "BaseException"):
+        for k in (1, 2):
+            for nodes in ([["set", 0, 0, 1], ["set", 0, 0, 4]], [["update", 0, [["v", 0, 1]]], ["update", 0, [["v", 0, 4], ["v", 2, 1]]]],
+                          [["trigger", 0, [0]], ["trigger", 0, [0, 2]]]):
+                for nesting, catch in (([], False), (["batch"], True), (["batch"], False)):
+                    prog = [["set", 0, 0, 0]] + [wrap(n, nesting, catch) for n in nodes] + [["set", 0, 2, 1]]
+                    yield {"fam": 0, "watchers": [dict(w, fault_exc=exc) for w in ws_q], "wfaults": [[1, k]], "prog": prog,
+                           "site": "watcher_after_queued_assigning_one:" + nodes[0][0] + ":" + exc}
+    for exc in ("Fault", "ValueError", "TypeError", "KeyError", "BaseException"):
         ws = [dict(w, fault_exc=exc) for w in ws_ev]
         for k in (1, 2):
             for name, nodes, wf in (("watcher_on_set", [["set", 0, 0, 1], ["set", 0, 0, 4]], [[0, k]]),
@@ -336,13 +365,13 @@ def execute(case):
                 world.trace.append(("applied", t, NAMES[node[2]], None))
             try:
                 world.assign(t, NAMES[node[2]], pool_value(node[3]))
-            except Fault:
+            except FAULTS:
                 note_fault("watcher_on_set")
                 raise
         elif kind == "update":
             t = node[1]
             kv = {}
-            bad = False
+            bad = badev = False
             for key in node[2]:
                 if key[0] == "v":
                     kv[NAMES[key[1]]] = pool_value(key[2])
@@ -354,21 +383,28 @@ def execute(case):
                 elif key[0] == "unknown":
                     kv["nosuchparameter"] = 1     # not a parameter: ValueError
                     bad = True
-                else:
+                elif key[0] == "badev":
+                    kv["ev"] = "yes"              # an Event takes True / False only: the rejection happens AT the Event key
+                    bad = True
+                    badev = True
+                elif kv.get("ev") != "yes":
                     kv["ev"] = True
-            if "num" in kv and bad and "nosuchparameter" not in kv:
+            if "num" in kv and bad and "nosuchparameter" not in kv and not badev:
                 kv["num"] = 99
             if bad and "ev" in kv:
                 state["labels"].add("event_key_in_failing_update")
             pos0 = len(world.trace)
             try:
                 world.targets[t].param.update(**kv)
-            except Fault:
+            except FAULTS:
                 note_fault("watcher_on_update")
                 raise
             except ValueError:
                 note_fault("rejected_key")
-                badkey = "nosuchparameter" if "nosuchparameter" in kv else "num"
+                badkeys = [k_ for k_ in kv if k_ == "nosuchparameter" or (k_ == "num" and kv[k_] == 99) or (k_ == "ev" and kv[k_] == "yes")]
+                badkey = badkeys[0]
+                if badev:
+                    state["labels"].add("rejected_at_event_key")
                 applied = list(kv)[:list(kv).index(badkey)]
                 if applied:
                     state["labels"].add("rejected_after_applied_keys")
@@ -383,7 +419,7 @@ def execute(case):
             t = node[1]
             try:
                 world.targets[t].param.trigger(*[PN[i] for i in node[2]])
-            except Fault:
+            except FAULTS:
                 note_fault("watcher_on_trigger")
                 state["labels"].add("fault_during_trigger")
                 raise
@@ -414,7 +450,7 @@ def execute(case):
             t = node[1]
             try:
                 world.targets[t].ev = True
-            except Fault:
+            except FAULTS:
                 note_fault("watcher_on_event")
                 raise
         elif kind == "bad_update_arg":
@@ -449,7 +485,7 @@ def execute(case):
             newv = (0, 10 + node[3]) if node[2] == "bounds" else f"d{node[3]}"
             try:
                 setattr(world.targets[t].param.num, node[2], newv)
-            except Fault:
+            except FAULTS:
                 note_fault("watcher_on_slot_set")
                 raise
         elif kind == "ctor":
@@ -475,7 +511,7 @@ def execute(case):
                 kv = {NAMES[n]: pool_value(v) for n, v in node[5]}
                 try:
                     cm = obj.param.update(**kv)
-                except Fault:
+                except FAULTS:
                     note_fault("watcher_on_update")
                     raise
             batching = kind in ("batch", "discard")
@@ -494,7 +530,7 @@ def execute(case):
                             if catch:
                                 try:
                                     run(ch)
-                                except (Fault, BodyFault, ValueError, TypeError):
+                                except FAULTS + (BodyFault, ValueError, TypeError):
                                     for tt in (0, 1):
                                         if depth[tt]:
                                             inbatch_probe(tt)
@@ -520,7 +556,7 @@ def execute(case):
                                 discarding[t] -= 1
                             if depth[t] == 0:
                                 world.trace.append(("closed", t))
-            except Fault:
+            except FAULTS:
                 if not state["faulted"]:
                     note_fault("watcher_on_flush")
                 state["labels"].add("fault:watcher_on_flush_or_exit")
@@ -533,7 +569,7 @@ def execute(case):
         world.trace = []
         try:
             run(node)
-        except (Fault, BodyFault, ValueError, TypeError):
+        except FAULTS + (BodyFault, ValueError, TypeError):
             state["faulted"] = True
         tag = f"statement {si} {node!r}"
         # silence between an in-batch probe and the closing of the outermost batch on that target
@@ -590,6 +626,8 @@ def execute(case):
                                                           f"behaves differently from one of a fresh class")
         if res.violations:
             break
+    if case.get("restore_fault") and not res.violations:
+        _restore_fault_scenario(res, case["restore_fault"])
     for l in state["labels"]:
         res.label(l)
     if case.get("site"):
@@ -597,6 +635,62 @@ def execute(case):
     res.nontrivial = bool(state["labels"] & {"fault_inside_context", "fault_while_event_queued", "fault_during_trigger",
                                              "event_key_in_failing_update"}) and nfaults > 0
     return res
+
+
+def _restore_fault_scenario(res, c):
+    """x follows a source; `with t.param.update(x=7)` suspends the link; the source moves to a value x rejects; leaving the
+    block fails while the reference is put back.  Afterwards the object dispatches like a fresh one with the same values."""
+    import contextlib
+    import param
+    Src = type("Src", (param.Parameterized,), {"y": param.Parameter(1)})
+    T = type("T", (param.Parameterized,), {"x": param.Number(0, bounds=(0, 10), allow_refs=True), "z": param.Number(0),
+                                           "u": param.Parameter(0, allow_refs=True)})
+
+    def watch(o):
+        log = []
+        o.param.watch(lambda *evs: log.append([(e.name, e.old, e.new, e.type) for e in evs]), ["x", "z", "u"],
+                      onlychanged=c["onlychanged"], queued=c["queued"])
+        return log
+
+    def later(o):
+        o.z = 3
+        o.x = 4
+        with batch_call_watchers(o):
+            o.z = 5
+            o.x = 6
+            o.u = 8
+        o.param.trigger("z")
+        o.param.update(x=2, z=1)
+
+    src = Src()
+    faulty = T(x=src.param.y, **({"u": src.param.y} if c["two_links"] else {}))
+    flog = watch(faulty)
+    upd = {"x": 7}
+    if c["also_plain"]:
+        upd["z"] = 2
+    if c["two_links"]:
+        upd["u"] = 9
+    try:
+        with (batch_call_watchers(faulty) if c["outer_batch"] else contextlib.nullcontext()):
+            with faulty.param.update(**upd):
+                src.y = c["bad_source_value"]
+    except ValueError:
+        res.label("restore_fault:exit_raised")
+    else:
+        res.fail("C05.harness", f"restore_fault {c!r}: leaving the context did not raise")
+        return
+    p = faulty.param
+    if p._BATCH_WATCH or p._events or p._state_watchers or p._TRIGGER:
+        res.fail("C05.state_left", f"restore_fault {c!r}: after the failed exit of the update() context batch={p._BATCH_WATCH} "
+                                   f"queued events={[(e.name, e.new) for e in p._events]!r}")
+    del flog[:]
+    fresh = T(x=faulty.x, z=faulty.z, u=faulty.u)
+    log = watch(fresh)
+    later(faulty)
+    later(fresh)
+    if flog != log:
+        res.fail("C05.probe_differs_from_twin", f"restore_fault {c!r}: after the failed exit the object dispatches differently from "
+                                                f"a fresh one with the same values:\n     faulted: {flog!r}\n     twin   : {log!r}")
 
 
 def _probe_light(world):
